@@ -36,7 +36,7 @@ CLAIMED = {
   "sampling; outside the second-stage bursts requests are atomic; cookie-session login runs on a shim of Flask-Login, JWT paths on the real library",
   TECH + "state-diff oracle attributing every durable change to one request"),
  "C17": ("exploration",
-  "an authorised manager actor issues seeded sequences of 4-28 management operations over the real API (create/edit/delete stream, upload of forged, fixture and truncated media, index, edit and delete media, add/edit/delete key, create/edit/delete multi-period stream, stream defaults) with existing and non-existing targets and repeated names, while restarts, duplicated requests and lost responses are injected; after every delivered request the durable state is read with a private sqlite3 connection and checked for referential consistency, unique names and ownership of deletions; liveness probes ask every listed stream / multi-period stream for manifests of random templates and modes (never 5xx) and every uploaded-and-indexed file is read back through the on-demand and segment routes. Second stage (one run in four): two or three management operations are served concurrently on baton-passing threads (pre-emption at every SQL statement, commit, rollback, blob save and unlink; SQLite lock waits are scheduled, a deadlock is resolved like a busy timeout); the same referential rules are checked on the state the burst leaves, and whether that state equals some sequential order of the requests is counted in the evidence. Crash points (one run in eight): a management request is served on a baton thread and the process dies at its k-th seam (k enumerated by the run index over SQL statements, commit, rollback, blob save/unlink); uncommitted changes are lost, blob files stay as written, the server restarts and the same rules plus the read-back are evaluated",
+  "an authorised manager actor issues seeded sequences of 4-28 management operations over the real API (create/edit/delete stream, upload of forged, fixture and truncated media, index, edit and delete media, add/edit/delete key, create/edit/delete multi-period stream, stream defaults) with existing and non-existing targets and repeated names, while restarts, duplicated requests and lost responses are injected; after every delivered request the durable state is read with a private sqlite3 connection and checked for referential consistency, unique names and ownership of deletions; liveness probes ask every listed stream / multi-period stream for manifests of random templates and modes (never 5xx) and every uploaded-and-indexed file is read back through the on-demand and segment routes. Second stage (one run in four): two or three management operations are served concurrently on baton-passing threads (pre-emption at every SQL statement, commit, rollback, blob save, unlink and replace and at the application's upload lock; SQLite and application lock waits are scheduled, a deadlock is resolved like a busy timeout; nearly half of the bursts are conflict pairs aimed at one object: two adds of one name, an edit next to a delete, two uploads of one file name, a double delete); the same referential rules are checked on the state the burst leaves, and whether that state equals some sequential order of the requests is counted in the evidence. Crash points (one run in eight): a management request is served on a baton thread and the process dies at its k-th seam (k enumerated by the run index over SQL statements, commit, rollback, blob save/unlink/replace); uncommitted changes are lost, blob files stay as written, the server restarts and the same rules plus the read-back are evaluated",
   "sampling; outside the bursts requests are atomic; disk-error faults (ENOSPC/EIO) and power-loss semantics are not injected; a crash is modelled as a BaseException at the seam (finally-blocks of the application still run); linearizability of bursts is measured (probes) but not judged because no listed property states it",
   TECH + "invariants on durable state after every event + liveness probes"),
  "C20": ("exploration",
@@ -72,7 +72,7 @@ CLAIMED = {
   "the quantifier over all 16-byte key ids, seeds and licence-URL strings of the pure helper functions is NOT addressed by this family: only the keys that occur in runs (fixture KIDs, manager-generated random ones) are covered",
   TECH + "reference model of the key store + cross-message comparison"),
  "C16": ("fault_enumeration",
-  "three fault families, labelled separately in the evidence. hostile: a finite catalogue built at run time from the routing table and the option registry (15 manifest/media/patch/player targets x every registered option name x 42 type-confused, boundary and hostile values; documented option combinations; every routing rule x 3 fillings of its path variables x {GET,HEAD,POST,PUT,DELETE} x {no body, empty/junk/list JSON, junk form}; the same bodies carrying a CSRF token valid for the route's service; licence-endpoint bodies) is swept in 48 slices x 5 world variants (complete, no encrypted media, no audio, no timing reference, unindexed media) x {anonymous, authorised} - cell (run index) fixed by a stride permutation, VERIF_SEED only rotates the start. storage: stored MP4 files are damaged between requests (truncation at every box boundary -1/0/+1/+4/+9, header bit flips, size-field edits) and then indexed, inspected, listed and served. inject: seeded error-injection sessions (verr/aerr, 404/410/503/504, failures=K, vod and live numbers, neighbours of the target, duplicated requests, lost responses, cookie loss, restarts) against a reference model of the documented protocol. Oracle on every delivered request: no unhandled exception, no 5xx other than the synthetic one the query asks for, and termination within a deterministic step budget (backward-jump counter via sys.monitoring, so a hang is a replayable violation rather than a wall-clock kill). race (second stage): legitimate management operations served concurrently under the pre-emptive scheduler must not answer 5xx either (a statement that gives up on SQLite's write lock when every live request waits is counted, not judged)",
+  "three fault families, labelled separately in the evidence. hostile: a finite catalogue built at run time from the routing table and the option registry (15 manifest/media/patch/player targets x every registered option name x 42 type-confused, boundary and hostile values; documented option combinations; every routing rule x 3 fillings of its path variables x {GET,HEAD,POST,PUT,DELETE} x {no body, empty/junk/list JSON, junk form}; the same bodies carrying a CSRF token valid for the route's service; licence-endpoint bodies) is swept in 48 slices x 5 world variants (complete, no encrypted media, no audio, no timing reference, unindexed media) x {anonymous, authorised} - cell (run index) fixed by a stride permutation, VERIF_SEED only rotates the start. storage: stored MP4 files are damaged between requests (truncation at every box boundary -1/0/+1/+4/+9, header bit flips, size-field edits) and then indexed, inspected, listed and served. inject: seeded error-injection sessions (verr/aerr, 404/410/503/504, failures=K, vod and live numbers, neighbours of the target, duplicated requests, lost responses, cookie loss, restarts) against a reference model of the documented protocol. Oracle on every delivered request: no unhandled exception, no 5xx other than the synthetic one the query asks for, and termination within a deterministic step budget (backward-jump counter via sys.monitoring, so a hang is a replayable violation rather than a wall-clock kill). race (second stage): legitimate management operations - random sets and conflict pairs aimed at one object - served concurrently under the pre-emptive scheduler must not answer 5xx either (a statement that gives up on SQLite's write lock when every live request waits is counted, not judged)",
   "the catalogue is finite and enumerated, not exhaustive over all query strings; quick covers 144 of the 480 hostile cells per VERIF_SEED, thorough all of them; requests are atomic",
   TECH + "fault catalogue enumeration with response and step-budget oracle + protocol reference model"),
  "C18": ("fault_enumeration",
